@@ -5,6 +5,7 @@ import (
 	"os"
 	"path/filepath"
 	"runtime/debug"
+	"strconv"
 	"syscall"
 )
 
@@ -19,6 +20,33 @@ func announcesHuge(segs [][]byte) bool {
 		}
 	}
 	return false
+}
+
+// hugeFound: once one execution of this check run (all workers of the run share the parent process) has shown
+// that announcements reserve memory, the remaining executions of that kind are skipped: they would show the
+// same thing at 4 GiB apiece.
+func hugeMarker() string {
+	d := os.Getenv("VERIF_BUILD_DIR")
+	if d == "" {
+		d = "/verif/.build/misc"
+	}
+	return filepath.Join(d, "huge.found."+strconv.Itoa(os.Getppid()))
+}
+
+func hugeFound() bool {
+	_, err := os.Stat(hugeMarker())
+	return err == nil
+}
+
+func hugeSetFound() {
+	if old, _ := filepath.Glob(filepath.Join(filepath.Dir(hugeMarker()), "huge.found.*")); len(old) > 0 {
+		for _, f := range old {
+			if f != hugeMarker() {
+				os.Remove(f) // markers of earlier runs
+			}
+		}
+	}
+	os.WriteFile(hugeMarker(), []byte("x"), 0o644)
 }
 
 func hugeLock() func() {
